@@ -233,7 +233,12 @@ let s1_case (c : case) : unit =
                (String.concat "," (List.map cp_name (get_valid_opcodes cfg !s))) (string_of_stack !s.stk));
              resync fin post_stk post_memo
          | S1_lex -> diff !step "lex" (Printf.sprintf "orig=%s final=%s" orig fin);
-             s := { !s with stk = post_stk; memo = post_memo }; r := None
+             s := { !s with stk = post_stk; memo = post_memo };
+             (* not the model's encoding of any token - but when the bytes still ARE one well-formed opcode the reference
+                machine goes on judging what they mean (C01 C02 C03 C17 are about the bytes, whatever encoder wrote them) *)
+             (match lex_one (bytes_of_hex fin) with
+              | Some (t, []) -> out_toks := t :: !out_toks; ref_advance t post_stk post_memo
+              | _ -> r := None)
          | S1_envelope t -> diff !step "envelope" (Printf.sprintf "chosen=%s emitted=%s" chosen (tok_to_string t));
              resync fin post_stk post_memo
          | S1_rewrite (t, o) -> diff !step "rewrite" (Printf.sprintf "%s -> %s" (tok_to_string t) (tok_to_string o));
@@ -778,6 +783,76 @@ let s7_case (c : case) : unit =
    | None -> diff "live" "no LIVE line");
   if !ok then Printf.printf "OK7 %s cells=%d cycle=%b\n" c.id (List.length !hp.cells) cyc_during
 
+
+(* ---------- S8: one step from every small state (states built by hand in the implementation) ---------- *)
+let s8_case (c : case) : unit =
+  let h = kv c.spec in
+  let cfg = config_of h in
+  let v = cfg.c_version in
+  let s0 = { stk = stack_of_string (Hashtbl.find h "stack"); memo = memo_of_string (Hashtbl.find h "memo");
+             proto_emitted = (match v with V0 | V1 -> false | _ -> true) } in
+  let srcs = Hashtbl.find h "src" in
+  let data = bytes_of_hex (String.sub srcs 6 (String.length srcs - 6)) in
+  let ndiff = ref 0 and nemit = ref 0 in
+  let diff what detail = incr ndiff; Printf.printf "DIFF %s step=%d s8-%s %s\n" c.id !nemit what detail in
+  let sort_memo m = List.sort (fun (a, _) (b, _) -> compare (int_of_n a) (int_of_n b)) m in
+  let state_str (s : sim) = string_of_stack s.stk ^ " " ^ string_of_memo (sort_memo s.memo) in
+  let model_valid = get_valid_opcodes cfg s0 in
+  let impl_valid = ref [] in
+  let run_model o = emit_and_process (the_env ()) (fun l -> l) cfg s0 o (SrcBytes data) in
+  List.iter (fun l ->
+    match words l with
+    | ["VALID"; names] ->
+        impl_valid := (if names = "-" then [] else List.map op_of_rust (String.split_on_char ',' names));
+        if !impl_valid <> model_valid then
+          diff "valid-set" (Printf.sprintf "impl=%s model=%s stack=%s" names (String.concat "," (List.map cp_name model_valid)) (string_of_stack s0.stk))
+    | "EMIT" :: op :: verdict :: rest ->
+        let o = op_of_rust op in
+        (* only steps one of the two sides would really take: an opcode neither guard admits is never emitted in this state *)
+        if List.mem o model_valid || List.mem o !impl_valid then begin
+          incr nemit;
+          let cmp bytes st left =
+            match run_model o with
+            | Ok ((em, s'), SrcBytes rest_src) ->
+                let mb = hex_of_bytes em.e_final in
+                if mb <> bytes then Some (Printf.sprintf "op=%s bytes impl=%s model=%s" op bytes mb)
+                else if state_str s' <> st then Some (Printf.sprintf "op=%s state-after impl=%s model=%s" op st (state_str s'))
+                else if Printf.sprintf "left=%d" (List.length rest_src) <> left then
+                  Some (Printf.sprintf "op=%s entropy %s model left=%d" op left (List.length rest_src))
+                else None
+            | Ok _ -> Some "model changed the source kind"
+            | Panic w -> Some (Printf.sprintf "op=%s the model panics (code %d), the implementation returns %s" op (int_of_n w) bytes) in
+          match verdict, rest with
+          | "ok", [bytes; stk; memo; left] ->
+              Hashtbl.reset fmt_override;
+              (match cmp bytes (stk ^ " " ^ memo) left with
+               | None -> ()
+               | Some d when o = FLOAT ->
+                   (* Rust's float text for the drawn value: accept it when it denotes the same f64 *)
+                   let bs = bytes_of_hex bytes in
+                   let txt = string_of_ascii (List.filteri (fun i _ -> i > 0 && i < List.length bs - 1) bs) in
+                   (match float_of_string_opt txt with
+                    | Some f when not (Float.is_nan f) -> Hashtbl.replace fmt_override (Int64.bits_of_float f) txt
+                    | _ -> ());
+                   (match cmp bytes (stk ^ " " ^ memo) left with None -> () | Some _ -> diff "emit" d);
+                   Hashtbl.reset fmt_override
+               | Some d -> diff "emit" d)
+          | ("panic" | "err"), msg ->
+              (match run_model o with
+               | Panic _ -> ()
+               | Ok _ -> diff "panic" (Printf.sprintf "op=%s the implementation %s (%s), the model returns normally" op verdict (String.concat " " msg)))
+          | _ -> diff "format" l
+        end
+    | ["FINISH"; "ok"; bytes; stk; memo] ->
+        let (tail, s1) = cleanup_for_stop v s0 in
+        let s2 = sim_step v s1 (STOP, A0) in
+        let mb = hex_of_bytes (List.map ref_code tail @ [ref_code STOP]) in
+        if mb <> bytes then diff "tail" (Printf.sprintf "impl=%s model=%s" bytes mb)
+        else if state_str s2 <> stk ^ " " ^ memo then diff "tail-state" (Printf.sprintf "impl=%s %s model=%s" stk memo (state_str s2))
+    | "FINISH" :: "panic" :: msg -> diff "tail" ("the implementation panics in cleanup_for_stop: " ^ String.concat " " msg)
+    | _ -> ()) c.lines;
+  if !ndiff = 0 then Printf.printf "OK8 %s ops=%d\n" c.id !nemit
+
 let () =
   match Array.to_list Sys.argv with
   | [_; "s1"; path] ->
@@ -884,6 +959,10 @@ let () =
       List.iter (fun c ->
         (try s3_case c
          with e -> Printf.printf "DIFF %s step=0 s3-driver-exception %s\n" c.id (Printexc.to_string e))) (read_cases path)
+  | [_; "s8"; path] ->
+      List.iter (fun c ->
+        (try s8_case c
+         with e -> Printf.printf "DIFF %s step=0 s8-driver-exception %s\n" c.id (Printexc.to_string e))) (read_cases path)
   | [_; "s7"; path] ->
       List.iter (fun c ->
         (try s7_case c
